@@ -323,7 +323,7 @@ def run_lines(binary, lines, env=None, timeout=600, cwd=None):
 OUTPUT_CAP = 256 * 1024 * 1024      # larger than any legitimate output or temporary file (a full MMB inflates to 100 MiB)
 
 
-def run_cmd(argv, stdin=b'', env=None, timeout=20, cwd=None):
+def run_cmd(argv, stdin=b'', env=None, timeout=20, cwd=None, stdin_seekable=False):
     """run a program; returns (exit status, stdout, stderr).  -999 = did not end within `timeout` seconds,
     -998 = wrote more than OUTPUT_CAP bytes of output (killed; runaway output is reported, not swallowed)."""
     e = dict(os.environ)
@@ -333,17 +333,26 @@ def run_cmd(argv, stdin=b'', env=None, timeout=20, cwd=None):
         e.update(env)
     import tempfile
     import time as _t
-    with tempfile.TemporaryFile() as fo, tempfile.TemporaryFile() as fe, tempfile.TemporaryFile() as fi:
-        fi.write(stdin or b'')
-        fi.seek(0)
+    with tempfile.TemporaryFile() as fo, tempfile.TemporaryFile() as fe:
         # output goes to unlinked temporary files (RLIMIT_FSIZE caps a runaway writer without holding it in memory)
         import resource
 
         def lim():
             resource.setrlimit(resource.RLIMIT_FSIZE, (OUTPUT_CAP, OUTPUT_CAP))
-        p = subprocess.Popen(argv, stdin=fi, stdout=fo, stderr=fe, env=e, cwd=cwd, preexec_fn=lim)
+        # standard input is a pipe (not seekable), as in `prog | tool -`, unless the caller asks for `tool - < file`
+        fi = None
+        if stdin_seekable:
+            fi = tempfile.TemporaryFile()
+            fi.write(stdin or b'')
+            fi.seek(0)
+        p = subprocess.Popen(argv, stdin=(fi if fi is not None else subprocess.PIPE), stdout=fo, stderr=fe, env=e, cwd=cwd, preexec_fn=lim)
         try:
-            rc = p.wait(timeout=timeout)
+            if fi is not None:
+                p.wait(timeout=timeout)
+                fi.close()
+            else:
+                p.communicate(input=stdin or b'', timeout=timeout)
+            rc = p.returncode
         except subprocess.TimeoutExpired:
             p.kill()
             p.wait()
@@ -575,7 +584,8 @@ def run_cases(cases, impl_bin, kind_env=None, workers=16, timeout=20, model_work
             if c.dest:
                 before = set(os.listdir(os.path.join(c.dir, c.dest)))
             binary = impl_bin[c.tool] if isinstance(impl_bin, dict) else impl_bin
-            rc, so, se = run_cmd([binary] + c.real_argv, stdin=(c.stdin or b''), env=env, timeout=timeout, cwd=c.dir)
+            rc, so, se = run_cmd([binary] + c.real_argv, stdin=(c.stdin or b''), env=env, timeout=timeout, cwd=c.dir,
+                                 stdin_seekable=getattr(c, 'stdin_seekable', False))
             files = {}
             if c.dest:
                 dd = os.path.join(c.dir, c.dest)
